@@ -1144,6 +1144,16 @@ def r14_parent_links_per_reference(ctx) -> None:
             elif isinstance(e.func, ast.Attribute) and unparse(e.func.value) == "self" and fi.cls and prog.has_func(f"{fi.cls.qual}.{e.func.attr}"):
                 hf = prog.func(f"{fi.cls.qual}.{e.func.attr}")
                 helper = (hf, hf.node)
+            elif isinstance(e.func, ast.Name) or (isinstance(e.func, ast.Attribute) and isinstance(e.func.value, ast.Name)):
+                hq = prog.resolve_expr(fi.module, e.func)
+                if hq and prog.has_func(hq) and prog.func(hq).cls is None:
+                    hf = prog.func(hq)
+                    helper = (hf, hf.node)
+            if helper is None and isinstance(e.func, ast.Name):
+                hq = prog.resolve_expr(fi.module, e.func)
+                if hq and prog.has_func(hq) and prog.func(hq).cls is None:
+                    hf = prog.func(hq)
+                    helper = (hf, hf.node)
             if helper is not None and depth < 3:
                 hfi, nd = helper
                 rets = [x for st in nd.body for x in ast.walk(st) if isinstance(x, ast.Return)]
